@@ -101,6 +101,17 @@ fn main() {
                 let devnull = libc::open(b"/dev/null\0".as_ptr() as *const libc::c_char, libc::O_WRONLY);
                 libc::dup2(devnull, 1);
                 libc::close(devnull);
+                // fd 2 is pointed at /dev/full (when it exists): a process condition for EVERY executed case.
+                // The crate reports errors on stderr with `let _ = writeln!(io::stderr(), ..)`, which cannot
+                // fail the caller; an `eprintln!` in its place panics when stderr rejects the write, and
+                // that panic is then an observation (independently seeded changes C08_r7_2, C11_r7_2,
+                // C13_r7_1, C15_r7_2, C20_r7_2). The harness itself writes nothing to stderr from here on
+                // (the panic hook is a no-op).
+                let devfull = libc::open(b"/dev/full\0".as_ptr() as *const libc::c_char, libc::O_WRONLY);
+                if devfull >= 0 {
+                    libc::dup2(devfull, 2);
+                    libc::close(devfull);
+                }
                 std::io::BufWriter::new(std::fs::File::from_raw_fd(proto))
             };
             let stdin = std::io::stdin();
